@@ -87,6 +87,7 @@ type result struct {
 	pokeAt   time.Duration
 	replayFrom, replayTo time.Duration
 	replayed int
+	trickled int
 	routing  []string // non-empty: entries still routed at the resource check
 	routingAt time.Duration
 	harness  string // scenario could not be set up as planned (reported, not a property violation)
@@ -537,17 +538,17 @@ func runCase(c Case, res *result) {
 			blackouts = append(blackouts, [2]time.Duration{tCause, forever})
 		}
 	case "hstimeout":
-		switch c.Variant % 4 {
-		case 0:
+		switch c.Variant % 5 {
+		case 0, 4: // 4: additionally an attacker keeps the client busy with valid Initial packets (see trickle)
 			blackouts = append(blackouts, [2]time.Duration{0, forever})
 		case 1:
 			blackouts = append(blackouts, [2]time.Duration{tCause, forever})
 		case 2:
-			for i := c.Variant / 4; i < c.Variant/4+80; i++ {
+			for i := c.Variant / 5; i < c.Variant/5+80; i++ {
 				faults = append(faults, sim.Fault{Dir: "s2c", Nth: i, Kind: "drop"})
 			}
 		case 3:
-			for i := 1 + c.Variant/4; i < 1+c.Variant/4+80; i++ {
+			for i := 1 + c.Variant/5; i < 1+c.Variant/5+80; i++ {
 				faults = append(faults, sim.Fault{Dir: "c2s", Nth: i, Kind: "drop"})
 			}
 		}
@@ -678,6 +679,11 @@ func runCase(c Case, res *result) {
 
 	if hs {
 		// ---- handshake-phase causes
+		res.C.pendingAtCause, res.S.pendingAtCause = []string{"Dial"}, []string{"ln.Accept#1"}
+		if c.Cause == "hstimeout" && c.Variant%5 == 4 {
+			wg.Add(1)
+			go func() { defer wg.Done(); res.trickle(hsIdle / 2) }()
+		}
 		if c.Cause == "cancel" {
 			sleepUntil(w, tCause)
 			res.cancelAt = w.Router.Now()
@@ -716,6 +722,19 @@ func runCase(c Case, res *result) {
 		}
 		// server side: a half-open connection lives at most 2*hsIdle, then its closed stand-in 3 PTO
 		sleepUntil(w, 2*hsIdle+3*rtt+700*ms+3*(3*rtt+100*ms))
+		synctest.Wait()
+		// connections that surfaced nevertheless (one-sided completion) end by CONNECTION_CLOSE or idle timeout
+		eff := time.Duration(max(c.effIdle("c"), c.effIdle("s"))) * ms
+		horizon := w.Router.Now() + 3*max(eff, 3*(3*rtt+50*ms)) + 2*time.Second
+		for _, e := range []*endpoint{res.C, res.S} {
+			e.mu.Lock()
+			have := e.conn != nil
+			e.mu.Unlock()
+			if have {
+				sim.WaitCtx(e.ended, horizon-w.Router.Now())
+			}
+		}
+		time.Sleep(3*(3*rtt+100*ms) + 700*ms)
 		synctest.Wait()
 		res.checkRouting(trC, trS, nil)
 		teardown()
